@@ -19,8 +19,8 @@ class P(Prop):
     def gen_pair(self, child_bb=False):
         rng = self.rng
         parent = gen.circuit(rng, n_in=(1, 4), n_gates=(1, 5), max_arity=3, dead=False, consts=0.1, name="top")
-        child = gen.circuit(rng, n_in=(1, 3), n_gates=(1, 4), max_arity=3, dead=False, consts=0.1, p_out=0.5, out_inputs=0.0,
-                            name="child")
+        child = gen.circuit(rng, n_in=(1, 3), n_gates=(1, 4), max_arity=3, dead=False, consts=0.1, p_out=0.5,
+                            out_inputs=rng.choice([0.0, 0.0, 0.5]), name="child")
         if child_bb and rng.random() < 0.4:
             gen.add_flops(rng, child, n_flops=(1, 1))
         return parent, child
@@ -35,7 +35,7 @@ class P(Prop):
                 conns[i] = rng.choice(nets)
         for o in sorted(child.outputs()):
             if child.type(o) == "input":
-                continue
+                continue   # a feed-through pin (input marked output) is attached as an input above
             if rng.random() < 0.6:
                 b = parent.add(f"{name}_to_{o}", "buf", uid=True, output=rng.random() < 0.5)
                 conns[o] = b
@@ -197,9 +197,28 @@ class P(Prop):
                     self.fail("search", "fill-output", f"net {b} != child output {pin}", case)
                     return
 
+    FFX = cg.BlackBox("ffx", ["clk", "cl", "d"], ["q"])
+
     def oracle_strip(self, c):
-        gen.add_flops(self.rng, c, n_flops=(1, 2))
-        ign = self.rng.choice([None, "clk"])
+        if self.rng.random() < 0.5:
+            gen.add_flops(self.rng, c, n_flops=(1, 2))
+            ign = self.rng.choice([None, "clk", ["clk"]])
+        else:
+            # pin names that contain one another: `ignore_pins` may be a str or a list of str
+            gen.add_flops(self.rng, c, n_flops=(1, 2), bb=self.FFX, connect_all=False)
+            for inst in list(c.blackboxes):
+                if not c.fanin(f"{inst}.cl"):
+                    c.connect(self.rng.choice(sorted(c.inputs())), f"{inst}.cl")
+            ign = self.rng.choice(["clk", ["clk"], "cl", ["cl", "clk"], None])
+        drv = self.driver()
+        seed = self.rng.randint(0, 5)
+        with ordered(seed):
+            o_i, s_i = call(cg.tx.strip_blackboxes, c, ign)
+        m = drv.ask({"op": "strip_blackboxes", "c": c_to_json(c), "seed": seed,
+                     "ignore_pins": [] if ign is None else ([ign] if isinstance(ign, str) else ign)})
+        d = f"outcome impl={o_i} model={m['outcome']}" if m["outcome"] != o_i else (cdiff(canon_c(s_i), canon(m["c"])) if o_i == "ok" else "")
+        if d:
+            self.fail("corr", "strip_blackboxes", d, {"c": c_to_json(c), "ignore_pins": ign, "seed": seed})
         case = {"fn": "strip_blackboxes", "c": c_to_json(c), "ignore_pins": ign}
         o, s = call(cg.tx.strip_blackboxes, c, ign)
         self.search_cases += 1
@@ -216,7 +235,7 @@ class P(Prop):
             if t in ("bb_input", "bb_output"):
                 pin = n.split(".")[-1]
                 new = n.replace(".", "_")
-                if ign and pin == ign:
+                if ign and (pin == ign if isinstance(ign, str) else pin in ign):
                     if n in s.graph.nodes or new in s.graph.nodes:
                         self.fail("search", "strip-ignored-pin", f"ignored pin {n} survived", case)
                         return
@@ -230,7 +249,8 @@ class P(Prop):
                     return
             else:
                 keep = lambda x: x.replace(".", "_") if "." in x else x  # noqa: E731
-                want = {keep(x) for x in c.graph.predecessors(n) if not (ign and x.split(".")[-1] == ign and "." in x)}
+                ignl = [] if ign is None else ([ign] if isinstance(ign, str) else ign)
+                want = {keep(x) for x in c.graph.predecessors(n) if not ("." in x and x.split(".")[-1] in ignl)}
                 if n not in s.graph.nodes or s.type(n) != t or set(s.graph.predecessors(n)) != want:
                     self.fail("search", "strip-other-node", f"node {n} changed", case)
                     return
